@@ -38,6 +38,12 @@ FROZEN_RV = {"betabinom", "norm", "binom", "poisson", "uniform", "randint", "bet
 
 
 def run(ctx: Context) -> None:
+    _run(ctx)
+    # a run with a saving folder equals a run without: the checkpoint writer only reads the history it is lent (alias analysis of C02-R7, writer side)
+    ctx.rule(c02.r7_lent_arrays, None, ("save_calibrator_state", "create_checkpoint", "checkpointing"))
+
+
+def _run(ctx: Context) -> None:
     v = CalibrateView(ctx.prog)
     ctx.analysed(v.cal)
     ctx.rule(c05.r1_seed_guard, v, "R1")
